@@ -422,6 +422,16 @@ class Engine:
                 raise SymError("map key projection on non-map")
             k = p[1]
             return self.read_path(vmap(v.val, lambda a: z3.Select(a, k)), rest)
+        if tag == "rng":
+            a, b = p[1], p[2]
+            if isinstance(v, (VSeq, VArr)):
+                if b is None:
+                    b = len(v.elems)
+                if rest and isinstance(rest[0], tuple) and rest[0][0] == "i":
+                    return self.read_path(v.elems[a + rest[0][1]], rest[1:])
+                ln = bv(b - a, 64) if isinstance(v, VArr) else simp(z3.If(z3.ULT(v.len, bv(b, 64)), v.len, bv(b, 64)) - bv(a, 64))
+                return self.read_path(VSeq(v.elems[a:b], ln), rest)
+            raise SymError("range projection on " + type(v).__name__)
         if tag == "sub":
             # subslice view [a..len-b]
             if isinstance(v, (VSeq, VArr)):
@@ -476,6 +486,22 @@ class Engine:
                 for j, old in enumerate(v.elems):
                     e.append(merge(idx == bv(j, idx.size()), self.write_path(old, rest, new), old))
                 return VSeq(e, v.len) if isinstance(v, VSeq) else VArr(e)
+        if tag == "rng":
+            a, b = p[1], p[2]
+            if isinstance(v, (VSeq, VArr)):
+                if b is None:
+                    b = len(v.elems)
+                e = list(v.elems)
+                if rest and isinstance(rest[0], tuple) and rest[0][0] == "i":
+                    j = a + rest[0][1]
+                    e[j] = self.write_path(e[j], rest[1:], new)
+                elif not rest:
+                    if not isinstance(new, (VSeq, VArr)) or len(new.elems) != b - a:
+                        raise SymError("range write with mismatching length")
+                    e[a:b] = list(new.elems)
+                else:
+                    raise SymError("unsupported write below a range projection")
+                return VSeq(e, v.len) if isinstance(v, VSeq) else VArr(e)
         if tag == "k":
             if isinstance(v, VMap):
                 k = p[1]
@@ -491,6 +517,9 @@ class Engine:
         if not isinstance(ref, VRef):
             raise SymError(f"deref of non-reference {ref!r}")
         if ref.root not in st.mem:
+            cm = getattr(self, "_const_mem", {})
+            if ref.root in cm:
+                return self.read_path(cm[ref.root], ref.path)
             raise SymError(f"dangling reference {ref!r}")
         return self.read_path(st.mem[ref.root], ref.path)
 
@@ -1151,8 +1180,9 @@ class Engine:
             return None
         out = merge_states(rets)
         ret = out.mem.get(("L", frame, 0), UNIT)
-        for r in [r for r in out.mem if r[0] == "L" and r[1] == frame]:
-            del out.mem[r]
+        if body.kind == "fn":
+            for r in [r for r in out.mem if r[0] == "L" and r[1] == frame]:
+                del out.mem[r]
         return out, ret
 
     def exec_block(self, s, frame, body, bb, rets):
